@@ -241,34 +241,114 @@ def _split_gap(pos, sg, og):
     return out
 
 
+def _key(t):
+    """alignment key of a token: text-bearing tokens whose *inside* the formatter may touch (strings,
+    f-string literal parts, comments) are compared without blanks / escapes"""
+    xtok = _mods()
+    if t.type in (xtok.STRING, xtok.COMMENT):
+        return (t.type, "".join(t.string.split()))
+    if t.type == xtok.FSTRING_MIDDLE:
+        return (t.type, "".join(t.string.split()).replace("{", "").replace("}", "").replace("\\", ""))
+    return (t.type, t.string)
+
+
+def _snapped_script(src, out, ts):
+    """Edit script when `out` cannot be tokenised: a character alignment (difflib) snapped to the
+    token / gap segments of `src`, so that every edit is again a whole gap or lies inside one token."""
+    bounds = [0]
+    for t in ts:
+        if t.a > bounds[-1]:
+            bounds.append(t.a)
+        if t.b > bounds[-1]:
+            bounds.append(t.b)
+    if bounds[-1] < len(src):
+        bounds.append(len(src))
+    starts = {t.a for t in ts}
+    blocks = difflib.SequenceMatcher(None, src, out, autojunk=False).get_matching_blocks()
+
+    def f(x):
+        if x == 0:
+            return 0
+        if x == len(src):
+            return len(out)
+        cands = [(i, j, n) for i, j, n in blocks if n and i <= x <= i + n]
+        if not cands:
+            return None
+        if x in starts:          # blanks inserted before a token belong to the gap
+            i, j, n = max(cands, key=lambda c: c[0])
+        else:
+            i, j, n = min(cands, key=lambda c: c[0])
+        return j + (x - i)
+
+    edits = []
+    a, fa = 0, 0
+    for x in bounds[1:]:
+        fx = f(x)
+        if fx is None or fx < fa:
+            continue             # unresolved boundary: merge with the next segment
+        seg_s, seg_o = src[a:x], out[fa:fx]
+        if seg_s != seg_o:
+            if seg_s.strip(" \t\n\x0c") == "" and seg_o.strip(" \t\n\x0c") == "":
+                edits.extend(_split_gap(a, seg_s, seg_o))
+            else:
+                edits.append((a, x, seg_o))
+        a, fa = x, fx
+    if a < len(src) or fa < len(out):
+        edits.append((a, len(src), out[fa:]))
+    if apply_edits(src, edits) != out:
+        return _char_script(src, out)
+    return edits
+
+
 def edit_script(src, out):
-    """[(a, b, repl)] in src coordinates, left to right, non-overlapping.  When xonsh's tokenizer
-    yields the same token sequence for both texts (the formatter's contract) the edits are whole
-    inter-token gaps (split per physical line) and in-token differences; otherwise a plain
-    character diff."""
+    """[(a, b, repl)] in src coordinates, left to right, non-overlapping.  The two token sequences
+    (xonsh's tokenizer) are aligned; between aligned tokens the edits are whole inter-token gaps
+    (split per physical line) and in-token differences; a stretch where the token sequences differ
+    (the formatter changed how the text tokenises, e.g. `{ {` -> `{{` in an f-string) is one edit."""
     try:
-        ts, to = real_tokens(src), real_tokens(out)
+        ts = real_tokens(src)
     except Exception:  # noqa: BLE001
         return _char_script(src, out)
-    if len(ts) != len(to) or any(x.type != y.type for x, y in zip(ts, to)):
-        return _char_script(src, out)
+    try:
+        to = real_tokens(out)
+    except Exception:  # noqa: BLE001
+        return _snapped_script(src, out, ts)
+    ks = [_key(x) for x in ts]
+    ko = [_key(y) for y in to]
+    if ks == ko:
+        ops = [("equal", 0, len(ks), 0, len(ko))]
+    else:
+        ops = difflib.SequenceMatcher(None, ks, ko, autojunk=False).get_opcodes()
     edits = []
     ps = po = 0
-    for x, y in zip(ts, to):
-        sg, og = src[ps:x.a], out[po:y.a]
-        if sg.strip(" \t\n\x0c") or og.strip(" \t\n\x0c"):
-            return _char_script(src, out)       # offsets are not trustworthy for this text
-        if sg != og:
-            edits.extend(_split_gap(ps, sg, og))
-        sx, sy = src[x.a:x.b], out[y.a:y.b]
-        if sx != sy:
-            edits.extend(_char_script(sx, sy, x.a))
-        ps, po = x.b, y.b
+    for tag, i1, i2, j1, j2 in ops:
+        if tag == "equal":
+            for x, y in zip(ts[i1:i2], to[j1:j2]):
+                sg, og = src[ps:x.a], out[po:y.a]
+                if sg.strip(" \t\n\x0c") or og.strip(" \t\n\x0c"):
+                    return _snapped_script(src, out, ts)       # offsets are not trustworthy for this text
+                if sg != og:
+                    edits.extend(_split_gap(ps, sg, og))
+                sx, sy = src[x.a:x.b], out[y.a:y.b]
+                if sx != sy:
+                    edits.extend(_char_script(sx, sy, x.a))
+                ps, po = x.b, y.b
+        else:
+            es = ts[i2 - 1].b if i2 > i1 else ps
+            eo = to[j2 - 1].b if j2 > j1 else po
+            if es < ps or eo < po:
+                return _snapped_script(src, out, ts)
+            # keep the leading gap out of the region when it is unchanged
+            k = 0
+            while ps + k < es and po + k < eo and src[ps + k] == out[po + k] and src[ps + k] in " \t\n":
+                k += 1
+            edits.append((ps + k, es, out[po + k:eo]))
+            ps, po = es, eo
     sg, og = src[ps:], out[po:]
     if sg != og:
         edits.extend(_split_gap(ps, sg, og))
     if apply_edits(src, edits) != out:
-        return _char_script(src, out)
+        return _snapped_script(src, out, ts)
     return edits
 
 
@@ -386,7 +466,7 @@ def describe(src, edit, toks, sub_lines):
             return ("blank-line-content", "lines", ctx)
         return ("rewrite-across-lines", "rewrite", ctx)
     if not blank:
-        return ("non-blank-rewrite", "rewrite", ctx)
+        return ("retokenised", "rewrite", ctx)
     shape = _shape(removed, repl)
     ls = src.rfind("\n", 0, a) + 1
     if src[ls:a].strip(" \t\x0c") == "" and a == ls:
